@@ -27,8 +27,8 @@ THEOREMS = {
     "defer": (["UrcuVerif.Props.SrcDefer"], ["UrcuVerif.Props.SrcDefer._defer_rcu_refines", "UrcuVerif.Props.SrcDefer._defer_rcu_stores", "UrcuVerif.Props.SrcDefer._defer_rcu_blocked", "UrcuVerif.Props.SrcDefer.wake_up_defer_refines", "UrcuVerif.Props.SrcDefer.rcu_defer_barrier_queue_refines", "UrcuVerif.Props.SrcDefer.rcu_defer_barrier_queue_events", "UrcuVerif.Props.SrcDefer.defer_roundtrip_inv", "UrcuVerif.Props.SrcDefer.defer_roundtrip_encode", "UrcuVerif.Props.SrcDefer.defer_roundtrip_one", "UrcuVerif.Props.SrcDefer._defer_rcu_refines_local", "UrcuVerif.Props.SrcDefer.rcu_defer_barrier_queue_refines_local", "UrcuVerif.Props.SrcDefer.enc_ex", "UrcuVerif.Props.SrcDefer.owner_proj", "UrcuVerif.Props.SrcDefer.owner_enabled_iff", "UrcuVerif.Props.SrcDefer.owner_frame", "UrcuVerif.Props.SrcDefer.owner_frame_unlock", "UrcuVerif.Props.SrcDefer.runner_proj", "UrcuVerif.Props.SrcDefer.runner_enabled_iff", "UrcuVerif.Props.SrcDefer.runner_frame"]),
     "wfs": (["UrcuVerif.Props.SrcStack"], ["UrcuVerif.Props.SrcStack.wfs_proj_step", "UrcuVerif.Props.SrcStack.wfs_lift_step", "UrcuVerif.Props.SrcStack.wfs_enabled_iff", "UrcuVerif.Props.SrcStack.wfs_proj_run", "UrcuVerif.Props.SrcStack.wfs_frame", "UrcuVerif.Props.SrcStack.wfs_frame_own", "UrcuVerif.Props.SrcStack.wfs_frame_iterNext", "UrcuVerif.Props.SrcStack._cds_wfs_push_refines", "UrcuVerif.Props.SrcStack.___cds_wfs_node_sync_next_refines", "UrcuVerif.Props.SrcStack.___cds_wfs_pop_refines", "UrcuVerif.Props.SrcStack.___cds_wfs_pop_refines_total", "UrcuVerif.Props.SrcStack.___cds_wfs_pop_all_refines", "UrcuVerif.Props.SrcStack._cds_wfs_empty_refines"]),
     "lfs": (["UrcuVerif.Props.SrcStack"], ["UrcuVerif.Props.SrcStack.lfs_proj_step", "UrcuVerif.Props.SrcStack.lfs_lift_step", "UrcuVerif.Props.SrcStack.lfs_enabled_iff", "UrcuVerif.Props.SrcStack.lfs_proj_run", "UrcuVerif.Props.SrcStack.lfs_frame", "UrcuVerif.Props.SrcStack.lfs_frame_own", "UrcuVerif.Props.SrcStack.lfs_frame_iterNext", "UrcuVerif.Props.SrcStack._cds_lfs_push_refines", "UrcuVerif.Props.SrcStack.___cds_lfs_pop_refines", "UrcuVerif.Props.SrcStack.___cds_lfs_pop_all_refines", "UrcuVerif.Props.SrcStack._cds_lfs_empty_refines"]),
-    "wfcq": (["UrcuVerif.Props.SrcQueue"], ["UrcuVerif.Props.SrcQueue.wfcq_proj", "UrcuVerif.Props.SrcQueue.wfcq_enabled_iff", "UrcuVerif.Props.SrcQueue.wfcq_frame", "UrcuVerif.Props.SrcQueue.wfcq_frame_env", "UrcuVerif.Props.SrcQueue._cds_wfcq_enqueue_refines", "UrcuVerif.Props.SrcQueue.___cds_wfcq_append_refines", "UrcuVerif.Props.SrcQueue._cds_wfcq_empty_refines", "UrcuVerif.Props.SrcQueue.___cds_wfcq_node_sync_next_refines", "UrcuVerif.Props.SrcQueue.___cds_wfcq_busy_wait_silent", "UrcuVerif.Props.SrcQueue._cds_wfcq_node_init_atomic_refines", "UrcuVerif.Props.SrcQueue.urcu_ref_get_safe_refines", "UrcuVerif.Props.SrcQueue.urcu_ref_get_safe_never_stores_at_LONG_MAX", "UrcuVerif.Props.SrcQueue.urcu_ref_get_safe_at_LONG_MAX", "UrcuVerif.Props.SrcQueue.urcu_ref_get_unless_zero_refines", "UrcuVerif.Props.SrcQueue.urcu_ref_get_unless_zero_never_stores_at_zero_or_LONG_MAX", "UrcuVerif.Props.SrcQueue.urcu_ref_put_refines"]),
-    "lfq": (["UrcuVerif.Props.SrcQueue"], ["UrcuVerif.Props.SrcQueue.lfq_proj", "UrcuVerif.Props.SrcQueue.lfq_enabled_iff", "UrcuVerif.Props.SrcQueue.lfq_frame", "UrcuVerif.Props.SrcQueue.lfq_frame_env", "UrcuVerif.Props.SrcQueue._cds_lfq_enqueue_rcu_refines"]),
+    "wfcq": (["UrcuVerif.Props.SrcQueue"], ["UrcuVerif.Props.SrcQueue.wfcq_proj", "UrcuVerif.Props.SrcQueue.wfcq_enabled_iff", "UrcuVerif.Props.SrcQueue.wfcq_frame", "UrcuVerif.Props.SrcQueue.wfcq_frame_env", "UrcuVerif.Props.SrcQueue._cds_wfcq_enqueue_refines", "UrcuVerif.Props.SrcQueue.___cds_wfcq_append_refines", "UrcuVerif.Props.SrcQueue._cds_wfcq_empty_refines", "UrcuVerif.Props.SrcQueue.___cds_wfcq_node_sync_next_refines", "UrcuVerif.Props.SrcQueue.___cds_wfcq_busy_wait_silent", "UrcuVerif.Props.SrcQueue.___cds_wfcq_dequeue_with_state_refines", "UrcuVerif.Props.SrcQueue.___cds_wfcq_splice_refines", "UrcuVerif.Props.SrcQueue.___cds_wfcq_node_sync_next_refines'", "UrcuVerif.Props.SrcQueue._cds_wfcq_node_init_atomic_refines", "UrcuVerif.Props.SrcQueue.urcu_ref_get_safe_refines", "UrcuVerif.Props.SrcQueue.urcu_ref_get_safe_never_stores_at_LONG_MAX", "UrcuVerif.Props.SrcQueue.urcu_ref_get_safe_at_LONG_MAX", "UrcuVerif.Props.SrcQueue.urcu_ref_get_unless_zero_refines", "UrcuVerif.Props.SrcQueue.urcu_ref_get_unless_zero_never_stores_at_zero_or_LONG_MAX", "UrcuVerif.Props.SrcQueue.urcu_ref_put_refines"]),
+    "lfq": (["UrcuVerif.Props.SrcQueue"], ["UrcuVerif.Props.SrcQueue.lfq_proj", "UrcuVerif.Props.SrcQueue.lfq_enabled_iff", "UrcuVerif.Props.SrcQueue.lfq_frame", "UrcuVerif.Props.SrcQueue.lfq_frame_env", "UrcuVerif.Props.SrcQueue._cds_lfq_enqueue_rcu_refines", "UrcuVerif.Props.SrcQueue._cds_lfq_dequeue_rcu_refines_partial"]),
     "gp-qsbr": (["UrcuVerif.Props.SrcRead"], ["UrcuVerif.Props.SrcRead._urcu_qsbr_quiescent_state_refines", "UrcuVerif.Props.SrcRead._urcu_qsbr_thread_offline_refines", "UrcuVerif.Props.SrcRead._urcu_qsbr_thread_online_refines", "UrcuVerif.Props.SrcRead._urcu_qsbr_read_ongoing_refines", "UrcuVerif.Props.SrcRead._urcu_qsbr_read_lock_refines", "UrcuVerif.Props.SrcRead._urcu_qsbr_read_unlock_refines", "UrcuVerif.Props.SrcRead.urcu_qsbr_wake_up_gp_refines", "UrcuVerif.Props.SrcRead.qsbr_proj_step", "UrcuVerif.Props.SrcRead.qsbr_proj_enabled", "UrcuVerif.Props.SrcRead.qsbr_proj_frame", "UrcuVerif.Props.SrcRead.qsbr_handshake_proj_step", "UrcuVerif.Props.SrcRead.qsbr_handshake_proj_enabled", "UrcuVerif.Props.SrcRead.qsbr_handshake_proj_frame"]),
 }
 
